@@ -4,6 +4,7 @@ package router
 
 import (
 	"net/netip"
+	"time"
 
 	"github.com/mycoria/mycoria/mgr"
 )
@@ -60,4 +61,16 @@ func (r *Router) VerifConnStates() []VerifConnState {
 		})
 	}
 	return out
+}
+
+// VerifExpire lets the active hello exchange (or its cool-down) with the given
+// router time out now.
+// Verification hook: only compiled with the "verif" build tag.
+func (h *HelloPingHandler) VerifExpire(remote netip.Addr) {
+	h.activeLock.Lock()
+	defer h.activeLock.Unlock()
+
+	if st := h.active[remote]; st != nil {
+		st.expires = time.Now().Add(-time.Second)
+	}
 }
